@@ -63,6 +63,24 @@ func init() {
 			{Name: "key parse failure degrades to unsigned mode", ExpectRule: "C28.R5", Edits: []Edit{
 				{File: ag, Old: "\t\tsigningPubKey, err := a.cfg.GetSigningPublicKey()\n\t\tif err != nil {\n\t\t\treturn fmt.Errorf(\"get signing public key: %w\", err)\n\t\t}\n\t\tfloodCfg.SigningPublicKey = &signingPubKey\n\t\ta.logger.Info(\"command signing verification enabled\")\n", New: "\t\tsigningPubKey, err := a.cfg.GetSigningPublicKey()\n\t\tif err != nil {\n\t\t\ta.logger.Warn(\"get signing public key\", logging.KeyError, err)\n\t\t} else {\n\t\t\tfloodCfg.SigningPublicKey = &signingPubKey\n\t\t\ta.logger.Info(\"command signing verification enabled\")\n\t\t}\n"},
 			}},
+			{Name: "seeded class: verified-signature memo keyed by the signature bytes only", ExpectRule: "C28.R3", ExpectKey: "HandleSleepCommand", Edits: []Edit{
+				{File: fl, Old: "\tif !crypto.Verify(*f.signingPubKey, cmd.SignableBytes(), cmd.Signature) {\n\t\treturn fmt.Errorf(\"signature verification failed\")\n\t}\n\n\treturn nil\n}\n\n// verifyWakeCommand", New: "\tif !c28MemoVerify(*f.signingPubKey, cmd.SignableBytes(), cmd.Signature) {\n\t\treturn fmt.Errorf(\"signature verification failed\")\n\t}\n\n\treturn nil\n}\n\nvar c28Memo = map[[64]byte]bool{}\n\nfunc c28MemoVerify(key [32]byte, msg []byte, sig [64]byte) bool {\n\tif c28Memo[sig] {\n\t\treturn true\n\t}\n\tif crypto.Verify(key, msg, sig) {\n\t\tc28Memo[sig] = true\n\t\treturn true\n\t}\n\treturn false\n}\n\n// verifyWakeCommand"},
+			}},
+			{Name: "seeded class: queued wake falls back to 'already seen' when the handler says no", ExpectRule: "C28.R1", ExpectKey: "handleQueuedState", Edits: []Edit{
+				{File: ag, Old: "\tif state.WakeCmd != nil && a.sleepMgr != nil && a.flooder.HandleWakeCommand(peerID, state.WakeCmd) {", New: "\tif state.WakeCmd != nil && a.sleepMgr != nil && (a.flooder.HandleWakeCommand(peerID, state.WakeCmd) || a.flooder.SleepCommandSeenCacheSize() > 0) {"},
+			}},
+			{Name: "queued wake handed to a decoupled consumer that wakes without verifying", ExpectRule: "C28.R1", ExpectKey: "command consumer", Edits: []Edit{
+				{File: ag, Old: "\tif state.WakeCmd != nil && a.sleepMgr != nil && a.flooder.HandleWakeCommand(peerID, state.WakeCmd) {\n\t\ta.logger.Info(\"waking from queued command\")\n\t\tif err := a.sleepMgr.Wake(); err != nil {\n\t\t\ta.logger.Error(\"failed to wake from queued command\",\n\t\t\t\tlogging.KeyError, err)\n\t\t}\n\t}\n}\n", New: "\tif state.WakeCmd != nil && a.sleepMgr != nil {\n\t\tselect {\n\t\tcase c28WakeQueue <- state.WakeCmd:\n\t\tdefault:\n\t\t}\n\t}\n}\n\nvar c28WakeQueue = make(chan *protocol.WakeCommand, 4)\n\nfunc (a *Agent) c28DrainWakeQueue() {\n\tfor cmd := range c28WakeQueue {\n\t\ta.logger.Info(\"waking from queued command\", \"origin\", cmd.OriginAgent.ShortString())\n\t\tif err := a.sleepMgr.Wake(); err != nil {\n\t\t\ta.logger.Error(\"failed to wake from queued command\",\n\t\t\t\tlogging.KeyError, err)\n\t\t}\n\t}\n}\n"},
+			}},
+			{Name: "window check skipped for some command ids", ExpectRule: "C28.R3", ExpectKey: "HandleWakeCommand", Edits: []Edit{
+				{File: fl, Old: "\tif timeDiff > f.timestampWindow {\n\t\treturn fmt.Errorf(\"timestamp outside validity window (%v old, max %v)\", timeDiff, f.timestampWindow)\n\t}\n\n\t// Verify Ed25519 signature\n\tif !crypto.Verify(*f.signingPubKey, cmd.SignableBytes(), cmd.Signature) {\n\t\treturn fmt.Errorf(\"signature verification failed\")\n\t}\n\n\treturn nil\n}\n\n// FloodSleepCommand", New: "\tif timeDiff > f.timestampWindow && cmd.CommandID%2 == 0 {\n\t\treturn fmt.Errorf(\"timestamp outside validity window (%v old, max %v)\", timeDiff, f.timestampWindow)\n\t}\n\n\t// Verify Ed25519 signature\n\tif !crypto.Verify(*f.signingPubKey, cmd.SignableBytes(), cmd.Signature) {\n\t\treturn fmt.Errorf(\"signature verification failed\")\n\t}\n\n\treturn nil\n}\n\n// FloodSleepCommand"},
+			}},
+			{Name: "verification skipped for commands relayed by the origin itself", ExpectRule: "C28.R2", ExpectKey: "HandleSleepCommand", Edits: []Edit{
+				{File: fl, Old: "\t// Verify signature if signing key is configured\n\tif err := f.verifySleepCommand(cmd); err != nil {", New: "\t// Verify signature if signing key is configured\n\tif err := f.verifySleepCommand(cmd); err != nil && fromPeer != cmd.OriginAgent {"},
+			}},
+			{Name: "rewrite: signature check behind a bool helper", Edits: []Edit{
+				{File: fl, Old: "\tif !crypto.Verify(*f.signingPubKey, cmd.SignableBytes(), cmd.Signature) {\n\t\treturn fmt.Errorf(\"signature verification failed\")\n\t}\n\n\treturn nil\n}\n\n// verifyWakeCommand", New: "\tif !f.c28SigOK(cmd.SignableBytes(), cmd.Signature) {\n\t\treturn fmt.Errorf(\"signature verification failed\")\n\t}\n\n\treturn nil\n}\n\nfunc (f *Flooder) c28SigOK(msg []byte, sig [64]byte) bool {\n\treturn crypto.Verify(*f.signingPubKey, msg, sig)\n}\n\n// verifyWakeCommand"},
+			}},
 			{Name: "rewrite: window test respelled with Abs and swapped operands", Edits: []Edit{
 				{File: fl, Old: "\tif timeDiff < 0 {\n\t\ttimeDiff = -timeDiff\n\t}\n\tif timeDiff > f.timestampWindow {\n\t\treturn fmt.Errorf(\"timestamp outside validity window (%v old, max %v)\", timeDiff, f.timestampWindow)\n\t}\n\n\t// Verify Ed25519 signature\n\tif !crypto.Verify(*f.signingPubKey, cmd.SignableBytes(), cmd.Signature) {\n\t\treturn fmt.Errorf(\"signature verification failed\")\n\t}\n\n\treturn nil\n}\n\n// verifyWakeCommand", New: "\ttimeDiff = timeDiff.Abs()\n\tif !(f.timestampWindow >= timeDiff) {\n\t\treturn fmt.Errorf(\"timestamp outside validity window (%v old, max %v)\", timeDiff, f.timestampWindow)\n\t}\n\n\t// Verify Ed25519 signature\n\tif ok := crypto.Verify(*f.signingPubKey, cmd.SignableBytes(), cmd.Signature); !ok {\n\t\treturn fmt.Errorf(\"signature verification failed\")\n\t}\n\n\treturn nil\n}\n\n// verifyWakeCommand"},
 			}},
@@ -191,7 +209,54 @@ func c28NewCtx(p *kit.Program, r *kit.Report) *c28Ctx {
 	if len(r.Floors) > 0 {
 		return nil
 	}
+	cx.semanticVerifiers()
 	return cx
+}
+
+// semanticVerifiers adds to the verifier set every other error/bool function of the package
+// that reaches crypto.Verify (the exported handlers excepted) and whose acceptance implies a
+// successful crypto.Verify: evaluated abstractly with a key configured it never accepts when
+// crypto.Verify answers false and can accept when it answers true. This makes wrappers of any
+// shape (`if !f.sigOK(...) { return err }; return nil`) verifiers without naming them.
+func (cx *c28Ctx) semanticVerifiers() {
+	for _, fn := range cx.p.FuncsInPkg(c28Flood) {
+		if cx.isVerify[fn] || !cx.reachV[fn] || fn.Parent() != nil || len(fn.Blocks) == 0 {
+			continue
+		}
+		isHandler := false
+		for _, h := range cx.handlers {
+			if h == fn {
+				isHandler = true
+			}
+		}
+		if isHandler {
+			continue
+		}
+		res := fn.Signature.Results()
+		if res.Len() == 0 {
+			continue
+		}
+		errRes := kit.IsErrorType(res.At(res.Len() - 1).Type())
+		if !errRes {
+			if b, ok := res.At(0).Type().Underlying().(*types.Basic); !ok || b.Kind() != types.Bool {
+				continue
+			}
+		}
+		args := make([]kit.PxVal, len(fn.Params))
+		for i, prm := range fn.Params {
+			switch {
+			case i == 0 && fn.Signature.Recv() != nil:
+				args[i] = kit.PxS("recv")
+			case c28IsCmdPtr(prm.Type()) != "":
+				args[i] = kit.PxS("cmd")
+			}
+		}
+		accBad, _, tr1 := c28RunVerifier(cx, fn, args, 2_000_000, 300, c28Scenario{"", 0, false, true}, errRes)
+		accGood, _, tr2 := c28RunVerifier(cx, fn, args, 2_000_000, 300, c28Scenario{"", 0, true, false}, errRes)
+		if !tr1 && !tr2 && !accBad && accGood {
+			cx.isVerify[fn] = true
+		}
+	}
 }
 
 // closeVerifiers extends the verifier set: reachV = flood functions that statically reach
@@ -649,6 +714,33 @@ func c28R1R2(cx *c28Ctx, r *kit.Report) {
 		}
 	}
 	r.Count("state_change_sites_in_wire_scope", nState)
+	// R1 outside the call-graph scope: a function that is handed a command it did not build
+	// itself (parameter, channel receive, field or call result of type *SleepCommand /
+	// *WakeCommand / *QueuedState) and changes the sleep state is a command consumer decoupled
+	// from the decoders (queue, channel, callback); the same obligation applies, judged locally.
+	nConsumers := 0
+	for _, fn := range p.RepoFuncs() {
+		if inScope(fn) || kit.FuncPkgPath(fn) == kit.PkgPath("internal/sleep") {
+			continue
+		}
+		var sites []ssa.CallInstruction
+		for _, c := range kit.Calls(fn) {
+			if cal := kit.CalleeOf(c); cal.Static == sleepFn || cal.Static == wakeFn {
+				sites = append(sites, c)
+			}
+		}
+		if len(sites) == 0 || !c28HoldsReceivedCommand(fn) {
+			continue
+		}
+		nConsumers++
+		for i, c := range sites {
+			what := kit.CalleeOf(c).Name
+			r.Decide(cx.verifiedAt(c), "C28.R1", fmt.Sprintf("%s (command consumer) calls Manager.%s #%d", kit.FuncName(fn), what, i+1), p.Pos(c.Pos()),
+				"the state change is dominated by a successful verifying predicate",
+				"this function receives a sleep/wake command from elsewhere (queue, channel, parameter) and calls Manager."+what+"() without the command having passed verification in this function: a second, unverified path from a command to the sleep state")
+		}
+	}
+	r.Count("command_consumers_outside_wire_scope", nConsumers)
 	r.Require(nState >= 2, "floor: expected >= 2 Sleep/Wake call sites reachable from the wire decoders, found %d", nState)
 
 	// R2a: handlers
@@ -709,6 +801,55 @@ func c28R1R2(cx *c28Ctx, r *kit.Report) {
 		}
 	}
 	r.Count("pending_command_stores_in_wire_scope", nPend)
+}
+
+// c28HoldsReceivedCommand: fn has a value of a wire command type that is not its own composite literal.
+func c28HoldsReceivedCommand(fn *ssa.Function) bool {
+	isCmd := func(t types.Type) bool {
+		if c28IsCmdPtr(t) != "" {
+			return true
+		}
+		if ch, ok := t.Underlying().(*types.Chan); ok && c28IsCmdPtr(ch.Elem()) != "" {
+			return true
+		}
+		if pt, ok := t.(*types.Pointer); ok {
+			if n, ok := pt.Elem().(*types.Named); ok && n.Obj().Name() == "QueuedState" && n.Obj().Pkg() != nil && n.Obj().Pkg().Path() == kit.PkgPath(c28Proto) {
+				return true
+			}
+		}
+		return false
+	}
+	for _, prm := range fn.Params {
+		if isCmd(prm.Type()) {
+			return true
+		}
+	}
+	for _, fv := range fn.FreeVars {
+		if pt, ok := fv.Type().(*types.Pointer); ok && isCmd(pt.Elem()) || isCmd(fv.Type()) {
+			return true
+		}
+	}
+	found := false
+	kit.Instrs(fn, func(in ssa.Instruction) {
+		v, ok := in.(ssa.Value)
+		if !ok || !isCmd(v.Type()) {
+			return
+		}
+		switch x := v.(type) {
+		case *ssa.Alloc, *ssa.MakeChan:
+		case *ssa.Phi:
+		case *ssa.UnOp:
+			if x.Op == token.MUL {
+				if _, local := c28Root(x.X).(*ssa.Alloc); local {
+					return // re-load of its own local
+				}
+			}
+			found = true
+		default:
+			found = true
+		}
+	})
+	return found
 }
 
 // ---------- R3 ----------
